@@ -33,10 +33,25 @@ def queued_spec(layout, dst1, dst2, depth):
                 per_q_ci=True)
 
 
+def behind_failed_spec(depth):
+    """Starts with one pull request in the queue whose queue builds FAILED;
+    the other one then enters the queue behind it (a queue reset would let
+    it overtake)."""
+    return spec('c02-q-D2-behind-failed', 'D2', 'development/4.3',
+                'development/5.1', depth=depth,
+                init=[['open', PR1, 'development/4.3'],
+                      ['open', PR2, 'development/5.1'],
+                      ['eval_pr', 1], ['ci_int', 1, 'SUCCESSFUL'],
+                      ['ci_int', 2, 'SUCCESSFUL'], ['eval_pr', 2],
+                      ['ci_q_all', 'FAILED']],
+                statuses_q=['SUCCESSFUL'])
+
+
 def specs(tier):
     if tier == 'quick':
         return [spec('c02-q-D2', 'D2', 'development/4.3', 'development/5.1',
                      depth=4),
+                behind_failed_spec(1),
                 queued_spec('D2', 'development/4.3', 'development/4.3', 3),
                 spec('c02-noq-S3', 'S3', 'stabilization/4.3.18',
                      'stabilization/4.3.18', queue=False, depth=4,
@@ -45,6 +60,7 @@ def specs(tier):
                            ['eval_pr', 1], ['eval_pr', 2]])]
     return [spec('c02-q-D2', 'D2', 'development/4.3', 'development/5.1',
                  depth=8, statuses_q=['SUCCESSFUL', 'FAILED']),
+            behind_failed_spec(4),
             queued_spec('D3', 'development/4.3', 'development/4.3', 5),
             queued_spec('D3', 'development/4.3', 'development/5.1', 5),
             spec('c02-q-S3', 'S3', 'stabilization/4.3.18', 'development/4.3',
